@@ -313,6 +313,14 @@ def rt_overrides(ctx, prop):
             ctx.violation(rule, 'onl/sim/rt.py::RealtimeEnvironment.%s' % m, 'override %s' % m,
                           'RealtimeEnvironment defines %s: only step/sync and the two properties may differ from Environment' % m,
                           where=c.methods[m].where)
+    for attr in ('_now', '_queue', '_eid', '_active_proc'):
+        for f, node, kind in attr_writers(ctx.repo, attr):
+            if f.cls is c:
+                ctx.ob(rule, False)
+                ctx.violation(rule, 'onl/sim/rt.py::%s' % f.qualname, 'writes kernel state .%s' % attr,
+                              '%s writes the kernel\'s .%s: the real-time environment must not change what is executed' % (f.qualname, attr),
+                              where='%s:%d' % (f.module.relpath, node.lineno))
+    ctx.ob(rule, True)
     ok = [b.name for b in c.bases] == ['Environment']
     ctx.ob(rule, ok)
     if not ok:
